@@ -163,7 +163,7 @@ EXPORT errno_t _ctime_s_chk(char *dest, rsize_t dmax, const time_t *timer,
             return -1;
         }
     } else {
-        static char tmp[120];
+        char tmp[120];
         buf = ctime_r(timer, (char *)&tmp);
         if (!buf)
             return -1;
